@@ -155,6 +155,19 @@ def run(ctx, model_ok=True):
                 k += 1
     finally:
         langgen.A_VARS[:] = old
+    # runs of comment-only lines with references into them (the programs of the reference-map stream), every level
+    for i in range(60 if quick else 1500):
+        nl = rng.choice([3, 5, 8, 12])
+        nums = sorted(rng.sample(range(1, 400), nl))
+        body = []
+        for n in nums:
+            if rng.random() < 0.5:
+                body.append(f"{n} REM {rng.choice(['', 'X', 'note'])}")
+            else:
+                body.append(f"{n} {rng.choice(['GOTO', 'GOSUB', 'IF X THEN', 'ON X GOTO'])} {rng.choice(nums)}" + (f",{rng.choice(nums)}" if rng.random() < 0.2 else ''))
+        for lv in [2, 3]:
+            lines.append(f"minichk p{k} {lv} {hexs((chr(10).join(body) + chr(10)).encode())}")
+            k += 1
     # REM-only lines that are branch targets, in every position, every level
     for a in range(3):
         for pos in range(4):
